@@ -10,6 +10,8 @@ behaviour is executed on TurDB several times:
              settings are not persisted)
   static     the whole history under one fixed configuration from the cross product
              {wal on/off} x {synchronous OFF/NORMAL/FULL} x {autoflush on/off} x {checkpoint threshold 1/3/default}
+  txn_static transaction histories (TSpec of MC_Relational.tla: BEGIN .. COMMIT / ROLLBACK / savepoints) under WAL configurations
+             with checkpoint threshold 1 / 3 (COMMIT, auto-checkpoint and log flush interact)
   crowded    the history after 70 extra tables with indexes were created (more files than the 64-entry open-file LRU)
 
 and every statement result (ok/error, affected rows, returned rows) and the full observation (scan, COUNT(*), PK /
@@ -191,13 +193,31 @@ def run(chk):
             variants.append((("cw", n), h, "static", CONFIGS["wal_full"], True))
             plan.append((h, "crowded+wal", "70 extra indexed tables, wal_full", ("b", n), ("cw", n), {"mode": "static", "static_ops": CONFIGS["wal_full"], "crowded": True}))
         n += 1
+    # transactions: the TSpec histories (BEGIN .. COMMIT / ROLLBACK / savepoints from a two-row table) under WAL configurations in
+    # which COMMIT, auto-checkpoint and the log interact (threshold 1 / 3: a checkpoint at practically every commit)
+    import os
+    tcfg = vlib.scratch() + "/GenTxnFocus_c42.cfg"
+    open(tcfg, "w").write(open(os.path.join(vlib.SPEC, "Gen_TxnFocus.cfg")).read().replace("MaxOps = 8", "MaxOps = %d" % (8 if thorough else 7)))
+    tx = relrun.emit_cached(tcfg)["emitted"]
+    tx = [c for c in tx if c["hist"][-1]["op"]["k"] in ("commit", "rollback", "drophandle") or not c["intxn"]]
+    tx = vlib.stratified_sample(tx, lambda c: tuple(h["op"]["k"] for h in c["hist"][2:]), 3000 if thorough else 500, rng)
+    txn_statics = [("wal=ON,sync=OFF,threshold=1", ["PRAGMA wal=ON", "PRAGMA synchronous=OFF", "PRAGMA wal_checkpoint_threshold=1"]),
+                   ("wal=ON,sync=FULL,threshold=1", ["PRAGMA wal=ON", "PRAGMA synchronous=FULL", "PRAGMA wal_checkpoint_threshold=1"]),
+                   ("wal=ON,sync=NORMAL,autoflush=OFF,threshold=3", ["PRAGMA wal=ON", "PRAGMA synchronous=NORMAL", "PRAGMA wal_autoflush=OFF", "PRAGMA wal_checkpoint_threshold=3"])]
+    for i, c in enumerate(tx):
+        h = c["hist"]
+        variants.append((("b", n), h, "baseline", None, False))
+        name, ops = txn_statics[i % len(txn_statics)]
+        variants.append((("x", n), h, "static", ops, False))
+        plan.append((h, "txn_static", name, ("b", n), ("x", n), {"mode": "static", "static_ops": ops}))
+        n += 1
     res = execute(variants); chk.mark("replay")
     stats = {"equal": 0, "diverging": {}}
     per_label = {}
     for hist, label, cfgname, bt, vt, rv in plan:
         per_label[label] = per_label.get(label, 0) + 1
         compare(chk, hist, label, cfgname, res[bt], res[vt], stats, rv)
-    if not per_label.get("switched") or not per_label.get("crowded"):
+    if not per_label.get("switched") or not per_label.get("crowded") or not per_label.get("txn_static"):
         raise vlib.ToolError("no switched / crowded comparisons were generated")
     chk.cov = {"states": gstats["tlc"].get("distinct", 0), "transitions": gstats["tlc"].get("generated", 0),
                "traces_validated_against_impl": len(variants), "behaviours_generated_by_tlc": total,
